@@ -1439,4 +1439,5 @@ case("c16-refactor-overlay-prefiltered-own", "C16", "refactor", [(H + "start_sta
                 continue
 """)])
 case("c15-rearm-keeps-delivered-signal", "C15", "mutant", [(H + "jump_to_stage/reset.py", '    for key in ("_signal_name", "_signal_data"):', '    for key in ("_signal_data",):')], "C15.R6")
-case("c05-late-startstage-ignored-when-halted", "C05", "mutant", [(H + "start_stage/handler.py", "                if stage.status.is_halt:\n                    # The stage was halted before it could start", "                if False and stage.status.is_halt:\n                    # The stage was halted before it could start")], "C05.R15")
+case("c05-late-startstage-ignored-when-canceled", "C05", "mutant", [(H + "start_stage/handler.py", "                if stage.status.is_halt:\n                    # The stage was halted before it could start", "                if stage.status == WorkflowStatus.TERMINAL:\n                    # The stage was halted before it could start")], "C05.R15")
+case("c05-refactor-late-startstage-halt-set", "C05", "refactor", [(H + "start_stage/handler.py", "                if stage.status.is_halt:\n                    # The stage was halted before it could start", "                if stage.status in (WorkflowStatus.TERMINAL, WorkflowStatus.CANCELED, WorkflowStatus.STOPPED):\n                    # The stage was halted before it could start")])
